@@ -73,7 +73,7 @@ def _simpl(t):
     from .z3dom import lower, zconst
     if V.is_conc(t):
         return t
-    return lower(z3.simplify(zconst(t), som=True))
+    return lower(z3.simplify(zconst(t)))
 
 
 def assigned_names(stmts):
